@@ -4,6 +4,7 @@ import (
 	"context"
 	"encoding/base64"
 	"fmt"
+	"io"
 	"net"
 	"net/http/httptest"
 	"sort"
@@ -11,6 +12,8 @@ import (
 	"strings"
 	"time"
 
+	gws "github.com/gobwas/ws"
+	"github.com/gobwas/ws/wsutil"
 	"google.golang.org/genproto/googleapis/api/annotations"
 	"google.golang.org/grpc"
 	"google.golang.org/grpc/reflection"
@@ -688,6 +691,21 @@ func c01API(c *Ctx, prop string) {
 		name string
 		rule *annotations.HttpRule
 	}{"Sh", getRule("/api1/r/{name=shelves/*}")})
+	// a two-variable rule; the rejected service below tries to put a literal next to its second variable
+	rules = append(rules, struct {
+		name string
+		rule *annotations.HttpRule
+	}{"Q", getRule("/api1/q/{name}/{other_name}")})
+	// a WebSocket rule without a body: its request message is built from the URL alone
+	ms = append(ms, &MethodSpec{Name: "AWs", In: "Req", Out: "Reply", ClientStream: true, ServerStream: true, Rule: customRule("WEBSOCKET", "/api1/ws/{name=rooms/*}", ""),
+		Stream: func(fx *Fixture, msp *MethodSpec, st grpc.ServerStream) error {
+			in := fx.NewMsg("Req")
+			if err := st.RecvMsg(in); err != nil {
+				return err
+			}
+			got = &rec{"AWs", in}
+			return st.SendMsg(fx.NewMsg("Reply"))
+		}})
 	for _, r := range rules {
 		r := r
 		ms = append(ms, &MethodSpec{Name: "A" + r.name, In: "Req", Out: "Reply", Rule: r.rule,
@@ -702,7 +720,8 @@ func c01API(c *Ctx, prop string) {
 		got = &rec{"Rejected", in}
 		return dynamicpb.NewMessage(in.Descriptor().ParentFile().Messages().ByName("Reply")), nil
 	}
-	ms = append(ms, &MethodSpec{Service: "Rejected", Name: "R1", In: "Req", Out: "Reply", Unary: failH, Rule: getRule("/api1/s/{name}/extra")},
+	ms = append(ms, &MethodSpec{Service: "Rejected", Name: "R0", In: "Req", Out: "Reply", Unary: failH, Rule: getRule("/api1/q/{name}/special")},
+		&MethodSpec{Service: "Rejected", Name: "R1", In: "Req", Out: "Reply", Unary: failH, Rule: getRule("/api1/s/{name}/extra")},
 		&MethodSpec{Service: "Rejected", Name: "R2", In: "Req", Out: "Reply", Unary: failH, Rule: getRule("/api1/rejected/{no_such_field}")})
 	fixtureDeferRegistration = true
 	fx, err := NewFixture(ms, nil)
@@ -744,8 +763,13 @@ func c01API(c *Ctx, prop string) {
 		build  func(m *dynamicpb.Message)
 	}
 	var cases []tcase
-	for _, s := range []string{"x", "hello", "a.b-c_d~e", "é日本", "0", "null", "true", "(a)!$'*,;@=+"} {
+	for _, s := range []string{"x", "hello", "a.b-c_d~e", "é日本", "0", "null", "true", "(a)!$'*,;@=+", ".", "..", "...", ".x"} {
 		s := s
+		// next to the literal only the rejected service tried to register
+		cases = append(cases, tcase{"/api1/q/" + s + "/special", "AQ", func(m *dynamicpb.Message) {
+			set(m, "name", protoreflect.ValueOfString(s))
+			set(m, "other_name", protoreflect.ValueOfString("special"))
+		}})
 		cases = append(cases, tcase{"/api1/s/" + s, "AS", func(m *dynamicpb.Message) { set(m, "name", protoreflect.ValueOfString(s)) }})
 		cases = append(cases, tcase{"/api1/m/shelves/" + s + "/books/b1/tail", "AM", func(m *dynamicpb.Message) { set(m, "name", protoreflect.ValueOfString("shelves/"+s+"/books/b1")) }})
 		cases = append(cases, tcase{"/api1/v/" + s + "/deep/" + s + ":go", "AV", func(m *dynamicpb.Message) { set(m, "other_name", protoreflect.ValueOfString(s+"/deep/"+s)) }})
@@ -816,9 +840,16 @@ func c01API(c *Ctx, prop string) {
 			cases = append(cases, tcase{tc.path + "?data=QUJD", tc.method, tc.build})
 		}
 	}
-	for _, tc := range cases {
+	for i, tc := range cases {
 		got = nil
-		rec, pn := fx.Serve(httptest.NewRequest("GET", tc.path, nil))
+		req := httptest.NewRequest("GET", tc.path, nil)
+		if i%3 == 1 { // what `curl --http2` attaches to a cleartext request: an upgrade offer that is not a WebSocket handshake
+			req.Header.Set("Connection", "Upgrade, HTTP2-Settings")
+			req.Header.Set("Upgrade", "h2c")
+			req.Header.Set("HTTP2-Settings", "AAMAAABkAARAAAAAAAIAAAAA")
+			tc.path += " (with an h2c upgrade offer)"
+		}
+		rec, pn := fx.Serve(req)
 		c.Eval("api-bind", tc.path, true)
 		c.Class("api:" + tc.method)
 		want := fx.NewMsg("Req")
@@ -832,6 +863,45 @@ func c01API(c *Ctx, prop string) {
 			c.SpecFail("api-bind", "GET "+tc.path, "dispatched to "+got.method, tc.method, prop+"/api/wrong-method", "dispatched to a method whose rules do not match")
 		case !proto.Equal(got.msg, want):
 			c.SpecFail("api-bind", "GET "+tc.path, prototextS(got.msg), prototextS(want), prop+"/api/fields/"+tc.method, "the bound fields do not hold exactly the path text converted to their type (or another field was set)")
+		}
+	}
+	// the WebSocket rule without a body: the handler's request holds the path text and the query
+	for _, room := range []string{"main", "a.b", "é"} {
+		got = nil
+		url := "ws" + strings.TrimPrefix(fx.HTTPServer().URL, "http") + "/api1/ws/rooms/" + room + "?other_name=o"
+		ctx, cancel := context.WithTimeout(context.Background(), 3*time.Second)
+		conn, br, _, err := gws.Dial(ctx, url)
+		cancel()
+		in := "websocket /api1/ws/rooms/" + room + "?other_name=o (rule without a body)"
+		c.Eval("api-bind-ws", in, true)
+		c.Class("api:AWs")
+		if err != nil {
+			c.SpecFail("api-bind-ws", in, err.Error(), "dispatched to AWs", prop+"/api/not-dispatched/AWs", "a WebSocket handshake on a path instantiated from the rule's template is refused")
+			continue
+		}
+		conn.SetDeadline(time.Now().Add(2 * time.Second)) //nolint
+		var rw io.ReadWriter = conn
+		if br != nil {
+			rw = struct {
+				io.Reader
+				io.Writer
+			}{br, conn}
+		}
+		wsutil.ReadServerData(rw) //nolint
+		conn.Close()
+		want := fx.NewMsg("Req")
+		set(want, "name", protoreflect.ValueOfString("rooms/"+room))
+		set(want, "other_name", protoreflect.ValueOfString("o"))
+		for k := 0; k < 100 && got == nil; k++ {
+			time.Sleep(2 * time.Millisecond)
+		}
+		switch {
+		case got == nil:
+			c.SpecFail("api-bind-ws", in, "no dispatch", "dispatched to AWs", prop+"/api/not-dispatched/AWs", "a WebSocket handshake on a path instantiated from the rule's template is not dispatched")
+		case got.method != "AWs":
+			c.SpecFail("api-bind-ws", in, "dispatched to "+got.method, "AWs", prop+"/api/wrong-method", "dispatched to a method whose rules do not match")
+		case !proto.Equal(got.msg, want):
+			c.SpecFail("api-bind-ws", in, prototextS(got.msg), prototextS(want), prop+"/api/fields/AWs", "over WebSocket the bound field does not hold the path text the variable covers")
 		}
 	}
 	if prop != "C01" {
